@@ -2,7 +2,7 @@
 # confirm a second-wave agent result and run its own property's check (plus extra checks given as further args)
 id=$1; shift
 cd "$(dirname "$0")/.."
-for k in a; do
+for k in a b; do
   /venv/bin/python tools/confirm_seeded.py /tmp/mut/out6/$id/$k $id-w6$k 2>&1 | tail -2
   [ -d seeded/$id-w6$k ] && /venv/bin/python tools/matrix.py $id-w6$k 2>&1 | grep -v MISSED
 done
